@@ -17,6 +17,11 @@ open Classical
   lt a b := decide (a < b)
   eq0 a := decide (a = 0)
 
+/-- a fixed positive real standing for mu_0 where its value does not matter -/
+noncomputable def mu0R : ℝ := 4 * Real.pi * (1 / 10000000)
+theorem mu0R_pos : 0 < mu0R := by unfold mu0R; positivity
+@[reducible] noncomputable instance instNumReal : Num ℝ := realNum mu0R
+
 @[simp] theorem mu0_real (μ : ℝ) : @Num.mu0 ℝ (realNum μ) = μ := rfl
 @[simp] theorem pi_real (μ : ℝ) : @Num.pi ℝ (realNum μ) = Real.pi := rfl
 @[simp] theorem ofNat_real (μ : ℝ) (k : Nat) : @Num.ofNat ℝ (realNum μ) k = (k : ℝ) := rfl
